@@ -38,14 +38,14 @@ Definition to_i32 (z : Z) : Z := let r := (z mod two32)%Z in if (r <? two31)%Z t
 Definition fast_atoi_i32 (s : list N) : Z := to_i32 (fast_atoi_mod two32 s).
 
 (* itoa(value, result, 10) for a non-negative value: decimal digits, most significant first.
-   Fuel = bit size + 1 >= number of decimal digits. *)
+   Fuel = bit size + 1 >= number of decimal digits (n < 2^(N.size n)). *)
 Fixpoint digits_aux (fuel : nat) (n : N) (acc : list N) : list N :=
   match fuel with
   | O => acc
   | S f => let acc' := (48 + n mod 10) :: acc in
            if n / 10 =? 0 then acc' else digits_aux f (n / 10) acc'
   end.
-Definition itoa_N (n : N) : list N := digits_aux (S (N.size_nat n)) n [].
+Definition itoa_N (n : N) : list N := digits_aux (S (N.to_nat (N.size n))) n [].
 (* itoa<int>: sign appended after the digits of the magnitude, then reversed *)
 Definition itoa_Z (z : Z) : list N :=
   if (z <? 0)%Z then 45 :: itoa_N (Z.to_N (- z)) else itoa_N (Z.to_N z).
